@@ -150,7 +150,7 @@ Qed.
 (* ---------- the model passes its own check ---------- *)
 Lemma prop_history_on_model inp :
   prop_history inp (run_history inp)
-  = first_nonzero (codes step_code (dec_history inp) (flags_of (dec_history inp))
+  = first_nonzero (codes (dec_history inp) (flags_of (dec_history inp))
                          (views_of (dec_history inp))).
 Proof.
   unfold prop_history, run_history. rewrite not_crashed. cbv zeta.
@@ -160,10 +160,9 @@ Qed.
 
 Lemma model_passes_own_check inp :
   hist_nonneg (dec_history inp) = true ->
-  hist_no_grow init_cache (dec_history inp) = true ->
   prop_history inp (run_history inp) = 0.
 Proof.
-  intros Hnn Hg. rewrite prop_history_on_model.
+  intros Hnn. rewrite prop_history_on_model.
   apply first_nonzero_all_zero. apply trace_full; assumption.
 Qed.
 
@@ -287,4 +286,26 @@ Proof.
     - destruct (match_owners ws p) eqn:Em; [|reflexivity].
       apply owner_match, owners_specb_spec in Em. congruence. }
   rewrite H, Z.eqb_refl. reflexivity.
+Qed.
+
+(* ---------- the admission sentence of the property, on reachable states ---------- *)
+From Verif Require Import C05.Proofs_ledger.
+
+(* for every history (non-negative requests) and every cached reservation: if the restricted
+   check lets a pod in (nothing preemptible), then in every restricted dimension the pod asks
+   for, what the assigned pods hold plus the pod's request is within allocatable - reserved *)
+Lemma restricted_admission l :
+  all_along (fun _ o => op_nonneg o) init_cache l = true ->
+  forall i, In i (infos (crun init_cache l)) ->
+  forall req, fits_reservation i req [] = [] ->
+  forall k, In k (r_names i) -> hask k req = true -> 0 < getv k req ->
+  held i k + getv k req <= getv k (r_allocatable i) - getv k (r_reserved i).
+Proof.
+  intros Hnn i Hi req Hfit k Hk Hh Hpos.
+  pose proof (ledger_exact_all_histories l Hnn i Hi k) as He.
+  apply restricted_fit in Hfit. destruct Hfit as [_ Hd].
+  specialize (Hd k Hk Hh). assert (Hne : getv k req <> 0) by lia. specialize (Hd Hne).
+  cbn [getv] in Hd. destruct (hask k (r_allocated i)) eqn:Ea.
+  - lia.
+  - rewrite (getv_nohask _ _ Ea) in He. lia.
 Qed.
